@@ -4,6 +4,7 @@
 //   harness seq NB ND          histories on stdin, one per line; NB handles IntrusivePtr<Base>
 //                              (indices 0..NB-1) and ND handles IntrusivePtr<Derived> (NB..NB+ND-1)
 //   harness threads T OPS SEED ROUNDS   concurrent phase, prints "threads ok ..." or "threads FAIL ..."
+#include <algorithm>
 #include <atomic>
 #include <cstdio>
 #include <cstdlib>
@@ -542,8 +543,51 @@ static int run_traits()
   return 0;
 }
 
+
+// ------------------------------------------------------------------ deep count: k explicit references on one object
+// harness deep LOG2MAX : refInc() up to 2^LOG2MAX + 2 times; at every k in {2^j - 2 .. 2^j + 2} the count must be
+// exactly creator(1) + k, the object alive, and a handle copy + drop must leave both unchanged.
+static int run_deep(int log2max)
+{
+  std::vector<int> destroyed(1, 0);
+  g_destroyed = &destroyed;
+  Base *o = new Base(0);
+  unsigned long long k = 0, checks = 0;
+  const unsigned long long kmax = (1ULL << log2max) + 2;
+  std::vector<unsigned long long> pts;
+  for (int j = 1; j <= log2max; j++)
+    for (long long d = -2; d <= 2; d++) {
+      long long v = (long long)(1ULL << j) + d;
+      if (v > 0 && (unsigned long long)v <= kmax) pts.push_back((unsigned long long)v);
+    }
+  std::sort(pts.begin(), pts.end());
+  pts.erase(std::unique(pts.begin(), pts.end()), pts.end());
+  for (unsigned long long target : pts) {
+    while (k < target) { o->refInc(); k++; }
+    checks++;
+    long long got = destroyed[0] ? -1 : o->useCount();
+    bool ok = destroyed[0] == 0 && got == (long long)(1 + k);
+    if (ok) {
+      { IntrusivePtr<Base> hnd(o); IntrusivePtr<Base> h2(hnd); }      // copy + drop with k references outstanding
+      ok = destroyed[0] == 0 && o->useCount() == (long long)(1 + k);
+      if (!ok) got = destroyed[0] ? -1 : o->useCount();
+    }
+    if (!ok) {
+      std::cout << "deep FAIL k=" << k << " useCount=" << got << " expected=" << (1 + k) << " alive=" << (destroyed[0] == 0)
+                << " destroyed=" << destroyed[0] << "\n" << std::flush;
+      g_destroyed = nullptr;
+      std::_Exit(0);      // the object is in an undefined state: do not touch it again
+    }
+  }
+  std::cout << "deep ok k=" << k << " checkpoints=" << checks << "\n" << std::flush;
+  g_destroyed = nullptr;
+  std::_Exit(0);          // k references are outstanding on purpose; releasing them would double the run time
+}
+
 int main(int argc, char **argv)
 {
+  if (argc >= 3 && !std::strcmp(argv[1], "deep"))
+    return run_deep(std::atoi(argv[2]));
   if (argc >= 2 && !std::strcmp(argv[1], "traits"))
     return run_traits();
   if (argc >= 4 && !std::strcmp(argv[1], "seq"))
